@@ -228,12 +228,12 @@ def run(ctx):
     dating.quiet()
     stats = new_stats()
     with E.LeanEP() as L:
-        kernel_corr(L, ctx.rng(1), res, stats, ctx.n(600, 20000))
+        kernel_corr(L, ctx.rng(1), res, stats, ctx.n(600, 10000))
         rng = ctx.rng(2)
-        for i in range(ctx.n(40, 1500)):
+        for i in range(ctx.n(40, 800)):
             star_case(L, rng, i, res, stats)
     rng = ctx.rng(3)
-    for i in range(ctx.n(40, 1500)):
+    for i in range(ctx.n(40, 800)):
         date_case(rng, res, stats, force_capped=(i % 4 == 0))
     res.rule = ("B: 600 scalar-kernel cases (damp / rescale / rootwardT0 vs the real functions; bit-exact, 4 ulp for "
                 "the projection) + star-forest tree sequences (2..8 samples, 1..4 parents, 1..5 trees, 0..400 "
